@@ -42,15 +42,16 @@ def huge(a, b):
 
 SPECS = [trunc_div, mod_spec, huge]
 
-KINDS = {'int': lambda S, n: S.int(n), 'dec': lambda S, n: S.dec(n), 'float': lambda S, n: S.float(n)}
+KINDS = {'int': lambda S, n, ex=None: S.int(n), 'dec': lambda S, n, ex=None: S.dec(n),
+         'float': lambda S, n, ex=None: S.float(n, ex=ex)}
 
 
 def operands_case(version, symbol, k1, k2, compat=None, schema=False, nitems=2):
     """self.get_operands(context, cls=...) is the havoc point: it returns the operand pair.
     Its own contract (numeric promotion) is proved separately (get_operands.*)."""
     def setup(S, ex):
-        op1 = KINDS[k1](S, 'op1')
-        op2 = KINDS[k2](S, 'op2')
+        op1 = KINDS[k1](S, 'op1', ex)
+        op2 = KINDS[k2](S, 'op2', ex)
         tok = mk_token(version, symbol, parser=mk_parser(version, compat), nitems=nitems)
         ctx = mk_context(schema)
         hooks = std_hooks(tok, {'self.get_operands': lambda ex, node, a, kw: VTuple([op1, op2])})
@@ -146,3 +147,200 @@ for version in ('2.0',):
             specs=SPECS, native=binary_native(version, 'div'), samples=mixed_pairs((k1, k2)),
             notes=['A-DEC: quotients are exact rationals; rounding of Decimal division at precision 28 is not modelled'],
             expect_min_obligations=4))
+
+
+# ---- rounding functions, abs, unary and additive/multiplicative operators --------------------
+
+def argument_case(version, symbol, kind, nitems=1, extra_hooks=None, fields=None):
+    def setup(S, ex):
+        arg = KINDS[kind](S, 'arg', ex)
+        f = {'context': NONE}
+        f.update(fields or {})
+        tok = mk_token(version, symbol, parser=mk_parser(version, False), nitems=nitems, **f)
+        ctx = mk_context()
+        hooks = std_hooks(tok, {'self.get_argument': lambda ex, node, a, kw: arg})
+        hooks.update(extra_hooks or {})
+        return Case([tok, ctx], hooks=hooks, label=kind)
+    return setup
+
+
+def unary_native(version, template):
+    def native(inputs):
+        return eval_native(version, template, a=inputs['arg'])
+    return native
+
+
+def arg_samples(kind):
+    grid = {'int': INT_GRID, 'dec': DEC_GRID + [decimal.Decimal('-0.5'), decimal.Decimal('0.49'), decimal.Decimal('-2.51')],
+            'float': FLOAT_GRID}[kind]
+
+    def gen(rng):
+        for a in grid:
+            yield {'arg': a}
+        while True:
+            if kind == 'int':
+                yield {'arg': rng.randint(-10 ** 9, 10 ** 9)}
+            elif kind == 'dec':
+                yield {'arg': decimal.Decimal(rng.randint(-10 ** 6, 10 ** 6)) / decimal.Decimal(rng.choice([1, 2, 4, 10, 100]))}
+            else:
+                yield {'arg': rng.choice([rng.uniform(-50, 50), rng.randint(-99, 99) + 0.5])}
+    return gen
+
+
+def is_round(r, x):
+    """F&O 4.4.4 fn:round: r is the integer nearest to x, ties toward positive infinity:
+    r - 1/2 <= x < r + 1/2."""
+    return is_integral(r) and 2 * exact(r) - 1 <= 2 * exact(x) and 2 * exact(x) < 2 * exact(r) + 1
+
+
+def is_floor(r, x):
+    """F&O 4.4.3: the largest integer not greater than x."""
+    return is_integral(r) and exact(r) <= exact(x) and exact(x) < exact(r) + 1
+
+
+def is_ceiling(r, x):
+    """F&O 4.4.2: the smallest integer not less than x."""
+    return is_integral(r) and exact(r) - 1 < exact(x) and exact(x) <= exact(r)
+
+
+def half_even_spec(x):
+    """F&O 4.4.5 fn:round-half-to-even with precision 0."""
+    f = floor_(exact(x))
+    d = exact(x) - f
+    if 2 * d < 1:
+        return f
+    if 2 * d > 1:
+        return f + 1
+    return f if f % 2 == 0 else f + 1
+
+
+SPECS2 = [is_round, is_floor, is_ceiling, half_even_spec]
+
+FINITE = "is_finite(arg)"
+FSPLIT = ["abs(exact(arg)) >= 2 ** 53"]
+for kind in ('int', 'dec', 'float'):
+    CONTRACTS.append(Contract(
+        f'round.{kind}', 'C06', token_method('2.0', 'round', 'evaluate'),
+        argument_case('2.0', 'round', kind),
+        post=[
+            ('half_toward_positive_infinity', "not is_finite(arg) or (returned and is_round(result, arg))"),
+            ('result_class_is_argument_class', "not returned or same_class(result, arg)"),
+            ('nan_inf_passthrough', "is_finite(arg) or (returned and is_nan(result) == is_nan(arg) and inf_sign(result) == inf_sign(arg))"),
+            ('only_coded_errors', "returned or raised_code is not None"),
+        ],
+        specs=SPECS2, native=unary_native('2.0', 'round($a)'), samples=arg_samples(kind), expect_min_obligations=4))
+    for sym, spec in (('floor', 'is_floor(result, arg)'), ('ceiling', 'is_ceiling(result, arg)')):
+        CONTRACTS.append(Contract(
+            f'{sym}.{kind}', 'C06', token_method('2.0', sym, 'evaluate'),
+            argument_case('2.0', sym, kind),
+            post=[
+                ('value', f"not is_finite(arg) or (returned and {spec})"),
+                ('result_class_is_argument_class', "not returned or same_class(result, arg)"),
+                ('nan_inf_passthrough', "is_finite(arg) or (returned and is_nan(result) == is_nan(arg) and inf_sign(result) == inf_sign(arg))"),
+                ('only_coded_errors', "returned or raised_code is not None"),
+            ],
+            specs=SPECS2, native=unary_native('2.0', f'{sym}($a)'), samples=arg_samples(kind), expect_min_obligations=4))
+    CONTRACTS.append(Contract(
+        f'abs.{kind}', 'C06', token_method('2.0', 'abs', 'evaluate'),
+        argument_case('2.0', 'abs', kind),
+        post=[
+            ('value', "not is_finite(arg) or (returned and exact(result) == abs(exact(arg)))"),
+            ('result_class_is_argument_class', "not returned or same_class(result, arg)"),
+            ('nan_inf', "is_finite(arg) or (returned and is_nan(result) == is_nan(arg) and inf_sign(result) == abs(inf_sign(arg)))"),
+            ('only_coded_errors', "returned or raised_code is not None"),
+        ],
+        specs=SPECS2, native=unary_native('2.0', 'abs($a)'), samples=arg_samples(kind), expect_min_obligations=4))
+    CONTRACTS.append(Contract(
+        f'round_half_to_even.{kind}', 'C06', token_method('2.0', 'round-half-to-even', 'evaluate'),
+        argument_case('2.0', 'round-half-to-even', kind, nitems=1),
+        pre=["abs(exact(arg)) < 10 ** 28"] if kind == 'dec' else [],
+        notes=['round-half-to-even on xs:decimal is proved for |arg| < 10**28 (beyond the decimal context the code '
+               'falls back to double arithmetic, which is not modelled: A-FP)'] if kind == 'dec' else [],
+        post=[
+            ('half_to_even', "not is_finite(arg) or (returned and exact(result) == half_even_spec(arg))"),
+            ('result_class_is_argument_class', "not returned or same_class(result, arg)"),
+            ('nan_inf_passthrough', "is_finite(arg) or (returned and is_nan(result) == is_nan(arg) and inf_sign(result) == inf_sign(arg))"),
+            ('only_coded_errors', "returned or raised_code is not None"),
+        ],
+        specs=SPECS2, native=unary_native('2.0', 'round-half-to-even($a)'), samples=arg_samples(kind),
+        expect_min_obligations=4))
+    # unary minus / plus (the 1-operand branch of the '-' / '+' tokens)
+    for sym, spec in (('-', '-exact(arg)'), ('+', 'exact(arg)')):
+        CONTRACTS.append(Contract(
+            f'unary{"minus" if sym == "-" else "plus"}.{kind}', 'C06', token_method('2.0', sym, 'evaluate'),
+            argument_case('2.0', sym, kind, nitems=1),
+            post=[
+                ('value', f"not is_finite(arg) or (returned and exact(result) == {spec})"),
+                ('result_class_is_argument_class', "not returned or same_class(result, arg)"),
+                ('nan_inf', "is_finite(arg) or (returned and is_nan(result) == is_nan(arg) and inf_sign(result) == "
+                            + ("-inf_sign(arg)" if sym == '-' else "inf_sign(arg)") + ")"),
+                ('negative_zero', "not (is_float(arg) and is_finite(arg) and exact(arg) == 0) or sign_bit(result) == "
+                                  + ("(not sign_bit(arg))" if sym == '-' else "sign_bit(arg)")),
+            ],
+            specs=SPECS2, native=unary_native('2.0', f'{sym}$a'), samples=arg_samples(kind), expect_min_obligations=4))
+
+# binary + - * on exact operands: exact results (A-DEC), class by promotion
+for sym, pyop in (('+', '+'), ('-', '-'), ('*', '*')):
+    for k1, k2 in EXACT_PAIRS:
+        CONTRACTS.append(Contract(
+            f'{ {"+": "plus", "-": "minus", "*": "times"}[sym] }.{k1}.{k2}', 'C06', token_method('2.0', sym, 'evaluate'),
+            operands_case('2.0', sym, k1, k2),
+            post=[
+                ('exact_value', f"returned and exact(result) == exact(op1) {pyop} exact(op2)"),
+                ('result_class', "is_int(result) if is_int(op1) and is_int(op2) else is_dec(result)"),
+            ],
+            specs=SPECS, native=binary_native('2.0', sym), samples=mixed_pairs((k1, k2)),
+            notes=['A-DEC: sums/products of decimals are exact rationals (rounding at 28 digits not modelled)'],
+            expect_min_obligations=2))
+
+
+# ---- XPath 3.0+ fn:round($arg, $precision): concrete precisions, unbounded $arg -------------
+
+def is_round_p(r, x, p):
+    """F&O 3.1 4.4.4: r is the multiple of 10**-p nearest to x, ties toward positive infinity."""
+    if p >= 0:
+        s = 10 ** p
+        return is_integral(exact(r) * s) and 2 * exact(r) * s - 1 <= 2 * exact(x) * s and \
+            2 * exact(x) * s < 2 * exact(r) * s + 1
+    s = 10 ** (-p)
+    return is_integral(exact_div(r, s)) and 2 * exact(r) - s <= 2 * exact(x) and 2 * exact(x) < 2 * exact(r) + s
+
+
+def round30_case(kind, precision):
+    def setup(S, ex):
+        arg = KINDS[kind](S, 'arg', ex)
+        tok = mk_token('3.1', 'round', parser=mk_parser('3.1', False), nitems=1 if precision is None else 2,
+                       context=NONE)
+        ctx = mk_context()
+
+        def get_argument(ex, node, a, kw):
+            if 'index' in kw:
+                return VInt(0 if precision is None else precision)
+            return arg
+        hooks = std_hooks(tok, {'self.get_argument': get_argument})
+        return Case([tok, ctx], hooks=hooks, names={'p': VInt(0 if precision is None else precision)},
+                    label=f'{kind},p={precision}')
+    return setup
+
+
+def round30_native(precision):
+    def native(inputs):
+        expr = 'round($a)' if precision is None else f'round($a, {precision})'
+        return eval_native('3.1', expr, a=inputs['arg'])
+    return native
+
+
+for kind in ('int', 'dec', 'float'):
+    for precision in (None, 0, 1, 2, -1, -2):
+        if kind == 'float' and precision not in (None, 0):
+            continue   # float results at other scales are not exactly representable (A-FP): bounded check
+        CONTRACTS.append(Contract(
+            f'round30.{kind}.p{precision}', 'C06', token_method('3.1', 'round', 'evaluate'),
+            round30_case(kind, precision),
+            post=[
+                ('half_toward_positive_infinity', "not is_finite(arg) or (returned and is_round_p(result, arg, p))"),
+                ('result_class_is_argument_class', "not returned or same_class(result, arg)"),
+                ('only_coded_errors', "returned or raised_code is not None"),
+            ],
+            specs=[is_round_p], native=round30_native(precision), samples=arg_samples(kind),
+            expect_min_obligations=3))
